@@ -396,6 +396,7 @@ type LiveCase struct {
 	Defer   bool   `json:"defer_poll"`
 	Lang    string `json:"locale_language,omitempty"` // language part of the locale name in LC_ALL ("" = en_US)
 	Mod     string `json:"locale_modifier,omitempty"` // "@modifier" suffix
+	ViaLang bool   `json:"via_lang,omitempty"`        // LC_ALL present but empty, the locale name is in LANG
 }
 
 func genLive(t *rapid.T) LiveCase {
@@ -420,6 +421,7 @@ func genLive(t *rapid.T) LiveCase {
 	// the locale name the charset comes from: C.UTF-8 is what containers use
 	c.Lang = rapid.SampledFrom([]string{"", "", "C", "POSIX", "ja_JP", "de_DE"}).Draw(t, "lang")
 	c.Mod = rapid.SampledFrom([]string{"", "", "", "@euro", "@x"}).Draw(t, "mod")
+	c.ViaLang = rapid.IntRange(0, 4).Draw(t, "vialang") == 0
 	return c
 }
 
@@ -456,7 +458,11 @@ func liveProp(c LiveCase) error {
 	if lang == "" {
 		lang = "en_US"
 	}
-	got, err := live.RunReadsLocale(e.ti, lang+"."+c.Charset+c.Mod, reads, c.Defer, len(want))
+	loc := lang + "." + c.Charset + c.Mod
+	if c.ViaLang {
+		loc = "LANG:" + loc
+	}
+	got, err := live.RunReadsLocale(e.ti, loc, reads, c.Defer, len(want))
 	if err != nil {
 		return err
 	}
@@ -479,12 +485,13 @@ func liveProp(c LiveCase) error {
 
 func TestProp(t *testing.T) {
 	defer pbt.Recover(t)
-	pbt.Describe("text: rapid strings of 1-8 characters drawn from the charset's repertoire (multi-byte characters favoured) with focus reports interspersed, optionally wrapped in paste brackets, over 24 stateless charsets x 16 entries x read partitions (incl. every byte alone), decoded by the production parser (synchronous verif hook with selectable charset); expected: one rune key event per character in order, paste start/end markers around, focus events in position, nothing else, no byte left. repertoire: every character of every charset once. slow-typing: 1-3 characters of 3-4 bytes arriving one byte per read every 18-25 ms through a real screen (every gap below the 50 ms escape timeout, the sum above it): no character may be torn (believed only after three plays in a row; plays the machine was too slow for are discarded and counted). live-text (locale names en_US/C/POSIX/ja_JP/de_DE.<charset>[@modifier]): up to 100 characters (more than both internal queues hold) delivered in many tty reads ending at character boundaries through a real screen with its input and main goroutines, polling deferred until the pipeline is saturated. Non-trivial = a cut strictly inside a multi-byte character; distinct = hash of the case.",
+	pbt.Describe("text: rapid strings of 1-8 characters drawn from the charset's repertoire (multi-byte characters favoured) with focus reports interspersed, optionally wrapped in paste brackets, over 24 stateless charsets x 16 entries x read partitions (incl. every byte alone), decoded by the production parser (synchronous verif hook with selectable charset); expected: one rune key event per character in order, paste start/end markers around, focus events in position, nothing else, no byte left. repertoire: every character of every charset once. split-backpressure: multi-byte characters split across three reads that arrive within 25 ms while the application does not poll for 130 ms and more runes than the event queue holds lie in between (old timer-channel semantics on odd shards): no character may be torn; slow-typing: 1-3 characters of 3-4 bytes arriving one byte per read every 18-25 ms through a real screen (every gap below the 50 ms escape timeout, the sum above it): no character may be torn (believed only after three plays in a row; plays the machine was too slow for are discarded and counted). live-text (locale names en_US/C/POSIX/ja_JP/de_DE.<charset>[@modifier]): up to 100 characters (more than both internal queues hold) delivered in many tty reads ending at character boundaries through a real screen with its input and main goroutines, polling deferred until the pipeline is saturated. Non-trivial = a cut strictly inside a multi-byte character; distinct = hash of the case.",
 		"repertoire of a charset = printable BMP characters that an independently instantiated x/text encoder encodes and a fresh decoder decodes back (astral samples for UTF-8/GB18030)",
 		"on entries without bracketed-paste support, text wrapped in paste brackets is only required to terminate cleanly (no panic, nothing left buffered)",
 		"ISO-2022-JP and HZ-GB2312 are excluded as the statement says (escape-driven 7-bit encodings)")
 	sweep(t)
 	pbt.Check(t, "text", pbt.Pick(40000, 400000), pbt.Spec[Case]{Gen: genCase, Prop: prop, NonTrivial: nonTrivial, Classes: classes})
+	pbt.Check(t, "split-backpressure", pbt.Pick(10, 150), pbt.Spec[SplitCase]{Gen: genSplit, Prop: splitProp})
 	pbt.Check(t, "slow-typing", pbt.Pick(20, 300), pbt.Spec[SlowCase]{Gen: genSlow, Prop: slowProp})
 	pbt.Check(t, "live-text", pbt.Pick(150, 3000), pbt.Spec[LiveCase]{Gen: genLive, Prop: liveProp,
 		NonTrivial: func(c LiveCase) bool {
